@@ -369,6 +369,7 @@ var _ = reserr.ErrAccessDenied
 // The connection subscribes to its own connection events only.
 //@ func (*wsConn).subscribeConn
 //@   requires predConnOK(c) && c.serv.mq != nil
+//@   assigns c.mqSub
 //@   assert[C10,C14] c.serv.mq.Subscribe#1: arg0 == "conn." + c.cid
 //@   safety[C15]
 //@ closure (*wsConn).subscribeConn#1
